@@ -33,6 +33,20 @@ def make(N, M, s, t="float", route="direct"):
     return Harness("backup_%s_%d_%s_%d_%s" % (s, N, t, M, route), args, body, out=(t, M), meta={"N": N, "M": M, "S": s, "T": t, "route": route})
 
 
+def truth_arith(t):
+    """an integer built from truth values only: constants, zext/sext of conditions, sums / bitwise combinations / selects of such"""
+    h = t[0]
+    if h == 'ci':
+        return True
+    if h == 'cast' and t[1] in ('zext', 'sext', 'trunc'):
+        return t[3][0] in ('cmp', 'not', 'and', 'or') or ir.term_type(t[3]) == 'i1' or truth_arith(t[3])
+    if h == 'op' and t[1] in ('add', 'sub', 'or', 'and', 'xor', 'mul'):
+        return truth_arith(t[3]) and truth_arith(t[4])
+    if h == 'sel':
+        return truth_arith(t[2]) and truth_arith(t[3])
+    return h in ('cmp', 'not', 'and', 'or')
+
+
 def cmp_nodes(t):
     out = []
     ir.walk(t, lambda x: out.append(x) if x[0] == 'cmp' else None)
@@ -101,8 +115,7 @@ def run(rep, tier):
         for t in trees:
             for c in cmp_nodes(t):
                 a, b = c[2], c[3]
-                if not any(x[0] in ('arg', 'ld') for x in (ir.strip_casts(a), ir.strip_casts(b))) and not (set(ir.atoms(a)) | set(ir.atoms(b))) - set(comp) \
-                        and all(comp[x[2]] == comp[x[3]] for x in cmp_nodes(('x', a, b)) if x[2] in comp and x[3] in comp):
+                if truth_arith(a) and truth_arith(b):
                     continue        # a test of 0/1 results of comparisons (branch-free code); the comparisons inside are visited themselves
                 if a not in comp or b not in comp or comp[a] != comp[b]:
                     bad = "comparison %s relates values of different components or non-configuration values" % ir.show(c)
